@@ -305,3 +305,76 @@ def op_attrline(line: str, atom_attrs: dict):
         r = V2._parse_atom_value_assignments(line, atom_attrs)
         return "[" + ",".join(f"{a}:{b}" for a, b in r) + "]"
     return " ".join(["ATTRLINE", P.esc(line)] + P.enc_atom_dict(atom_attrs)), guarded(run)
+
+
+# ---- the string layer of the interpreter, as the readers use it (str.splitlines / rstrip / split / int / float) ----
+
+def _ranges_of(flags) -> str:
+    out, start = [], None
+    for n, ok in enumerate(flags):
+        if ok and start is None:
+            start = n
+        elif not ok and start is not None:
+            out.append(f"{start}-{n - 1}")
+            start = None
+    if start is not None:
+        out.append(f"{start}-{len(flags) - 1}")
+    return ",".join(out)
+
+
+def op_charclass():
+    """every code point: is it stripped by str.rstrip(), does str.splitlines() break on it, does int() skip it,
+    and which decimal digit does int() read it as"""
+    def run():
+        N = 0x110000
+        space, brk, numspace = bytearray(N), bytearray(N), bytearray(N)
+        digit = [bytearray(N) for _ in range(10)]
+        for n in range(N):
+            if 0xD800 <= n <= 0xDFFF:
+                continue
+            c = chr(n)
+            if ("x" + c).rstrip() == "x":
+                space[n] = 1
+            if len(("a" + c + "b").splitlines()) == 2:
+                brk[n] = 1
+            try:
+                if int(c + "7") == 7 and int("7" + c) == 7:
+                    numspace[n] = 1
+                    continue
+            except ValueError:
+                pass
+            try:
+                d = int(c)
+                if 0 <= d <= 9 and int("1" + c) == 10 + d:
+                    digit[d][n] = 1
+            except ValueError:
+                pass
+        return P.fields("space=" + _ranges_of(space), "break=" + _ranges_of(brk), "numspace=" + _ranges_of(numspace),
+                        "digits=" + ",".join(_ranges_of(digit[d]) for d in range(10)))
+    return "CHARCLASS", guarded(run)
+
+
+def op_int(s: str):
+    return "INT " + P.esc(s), guarded(lambda: str(int(s)))
+
+
+def op_floatok(s: str):
+    def run():
+        try:
+            float(s)
+            return "true"
+        except ValueError:
+            return "false"
+    return "FLOATOK " + P.esc(s), guarded(run)
+
+
+def op_splitlines(s: str):
+    return "SPLITLINES " + P.esc(s), guarded(lambda: P.show_str_list(s.splitlines()))
+
+
+def op_rstrip(s: str):
+    return "RSTRIP " + P.esc(s), guarded(lambda: P.esc(s.rstrip()))
+
+
+def op_splitws(s: str):
+    return "SPLITWS " + P.esc(s), guarded(lambda: P.show_str_list(s.split()))
